@@ -39,6 +39,7 @@ pub fn oracle(case: &SpCase, res: &SpResult) -> (Option<(String, String)>, Vec<&
     let mut got: BTreeMap<i32, usize> = BTreeMap::new();
     let mut contig: i32 = -1;
     let mut fin_seen = false;
+    let mut fin_k: Option<i32> = None;
     let mut fin_ord: Option<u64> = None;
     let mut owed: Vec<Owed> = vec![];
     let mut bytes_since_tx: usize = 0;
@@ -55,7 +56,10 @@ pub fn oracle(case: &SpCase, res: &SpResult) -> (Option<(String, String)>, Vec<&
     // silence clause: instant since which the connection has been quiescent
     let mut quiet_since: Option<u64> = None;
     let mut sent_payload: u64 = 0; // bytes of first transmissions
-    let app_times: Vec<u64> = res.app.iter().filter(|a| matches!(a.ev, AppEv::Wrote(_) | AppEv::Read { .. } | AppEv::WriterDropped | AppEv::ReaderDropped | AppEv::ShutdownOk | AppEv::ShutdownErr(_))).map(|a| a.t_us).collect();
+    let mut app_times: Vec<u64> = res.app.iter().filter(|a| matches!(a.ev, AppEv::Wrote(_) | AppEv::Read { .. } | AppEv::WriterDropped | AppEv::ReaderDropped | AppEv::ShutdownOk | AppEv::ShutdownErr(_))).map(|a| a.t_us).collect();
+    // (a shutdown call is an application call from the instant it is made, not only once it has resolved)
+    app_times.extend(res.shutdown_called_at_us);
+    app_times.extend(res.app.iter().filter(|a| matches!(a.ev, AppEv::ShutdownOk | AppEv::ShutdownErr(_))).map(|a| a.t_start_us));
     let writes_total_by = |t: u64| -> u64 { res.app.iter().filter(|a| a.t_us <= t).map(|a| if let AppEv::Wrote(n) = a.ev { n as u64 } else { 0 }).sum() };
     let shutdown_started = res.app.iter().filter(|a| matches!(a.ev, AppEv::ShutdownOk | AppEv::ShutdownErr(_) | AppEv::WriterDropped)).map(|a| a.t_start_us).min();
 
@@ -67,6 +71,21 @@ pub fn oracle(case: &SpCase, res: &SpResult) -> (Option<(String, String)>, Vec<&
                 last_activity_us = r.t_us;
                 if p.ptype == refparse::ST_STATE || p.ptype == refparse::ST_DATA || p.ptype == refparse::ST_FIN {
                     if peer_acked.is_none_or(|a| dist(p.ack, a) > 0) { peer_acked = Some(p.ack); }
+                }
+                // "when a duplicate / a FIN arrives": the peer retransmits the FIN that was already honoured (the
+                // acknowledgement got lost). While the connection task lives that duplicate is acknowledged at once.
+                if p.ptype == refparse::ST_FIN && fin_seen && fin_k == Some(rel(p.seq)) {
+                    let ended_before = res.conn_events.iter().any(|e| e.kind == "vsock-end" && e.ord < r.ord);
+                    let reset_before = evs[..ei].iter().any(|e| matches!(e, Ev::Rx(_, q) if q.ptype == refparse::ST_RESET && q.conn_id == res.id_to_sock));
+                    if !ended_before && !reset_before {
+                        labels.insert("peer_fin_retransmitted");
+                        let k = rel(p.seq);
+                        let acked_now = evs[ei + 1..].iter().take_while(|e| match e { Ev::Rx(x, _) | Ev::Tx(x, _) => x.t_us == r.t_us }).any(|e| matches!(e, Ev::Tx(_, q) if q.conn_id == res.id_to_peer && q.ptype != refparse::ST_RESET && rel(q.ack) >= k));
+                        if !acked_now {
+                            return (Some(("not-immediate/dup-fin".into(), format!("log #{}: the peer's FIN (seq {}), already honoured, arrived again at t={} us while the connection task was alive, but nothing acknowledging it left at that instant", r.idx, p.seq, r.t_us))), vec![], false, 0);
+                        }
+                    }
+                    continue;
                 }
                 if fin_seen || own_fin { continue; }
                 if p.ptype != refparse::ST_DATA && p.ptype != refparse::ST_FIN { continue; }
@@ -87,7 +106,7 @@ pub fn oracle(case: &SpCase, res: &SpResult) -> (Option<(String, String)>, Vec<&
                     bytes_since_tx += released;
                     if k > before + 1 { why = Some("ooo"); labels.insert("ooo"); }
                     else if ooq_nonempty_before { why = Some("gap_fill"); labels.insert("gap_fill"); }
-                    if p.ptype == refparse::ST_FIN && k == before + 1 { why = Some("fin"); labels.insert("fin"); fin_seen = true; }
+                    if p.ptype == refparse::ST_FIN && k == before + 1 { why = Some("fin"); labels.insert("fin"); fin_seen = true; fin_k = Some(k); }
                     if why.is_none() && bytes_since_tx >= 2 * mss_upper { why = Some("threshold_2mss"); labels.insert("threshold_2mss"); }
                 }
                 // what must be acknowledged: for an in-order (or gap-filling) arrival the new
@@ -197,6 +216,10 @@ pub fn oracle(case: &SpCase, res: &SpResult) -> (Option<(String, String)>, Vec<&
             // total bytes the reader took after this packet
             let taken_after: usize = reads.iter().filter(|(o, _, _)| *o > r.ord).map(|(_, _, n)| *n).sum();
             let next_open = txs[i + 1..].iter().find(|(_, q)| q.wnd > 0);
+            // (nor once the endpoint itself has sent its FIN: whatever window its later packets — retransmissions
+            // of that FIN — carry is no window update)
+            let own_fin_before_open = txs[i + 1..].iter().take_while(|(_, q)| q.wnd == 0).any(|(_, q)| q.ptype == refparse::ST_FIN) || next_open.is_some_and(|(_, q)| q.ptype == refparse::ST_FIN);
+            if own_fin_before_open { continue; }
             if next_open.is_some_and(|(r2, _)| fin_ord.is_some_and(|f| f < r2.ord)) {
                 // once the peer's FIN is in, window updates are pointless and not sent by design
                 continue;
@@ -234,7 +257,7 @@ impl CheckDef for Sp {
     type Case = Case;
     const NAME: &'static str = "sp";
     fn strategy(tier: Tier) -> BoxedStrategy<Case> {
-        rxgen::strategy(RxGen { early_shutdown: false, hostile: false, max_steps: tier.pick(50, 120), with_writes: true, long_idle: true })
+        rxgen::strategy(RxGen { early_shutdown: false, hostile: false, max_steps: tier.pick(50, 120), with_writes: true, long_idle: true, fin_retx: true })
             .prop_map(|mut sp| {
                 sp.sock.inactivity_ms = 3_600_000; // the inactivity limit is not what this check is about
                 Case { sp }
